@@ -64,7 +64,8 @@ def f32bits(x):
 
 def check_intermediate(run, case, header, orders):
     try:
-        counts, iorders = kn.parse_intermediate(run.inter_base, case.order)
+        numbered = kn.number(kn.tokenize(case.data), case.skip)
+        counts, iorders = kn.parse_intermediate(run.inter_base, case.order, None if numbered is None else numbered[1])
     except (ValueError, OSError, struct.error) as e:
         return ("intermediate-syntax", "the intermediate files do not decode: %s" % e)
     if counts != header:
@@ -172,6 +173,23 @@ def run(ctx):
             spec_fail.append((c, run_, fail))
         if corr:
             corr_fail.append((c, run_, corr))
+    # component tie: what leaves the real AdjustCounts (n-grams, adjusted counts, pruning MARKS per stream, counts_pruned) on
+    # 7-record blocks, against the extracted model -- the marks decide what is written and the header counts
+    ncomp, comp_bad = (0, [])
+    if model:
+        ncomp, comp_bad = c05.component_check(ctx, [c for c in cases if c.prune or c.limit is not None][:ctx.pick(250, 2500)], model)
+    ctx.coverage["component_cases_adjust_counts"] = ncomp
+    ctx.coverage["component_mismatches"] = len(comp_bad)
+    ctx.coverage["configuration_classes"] = {
+        "memory_one_block(-S 20M)": sum(1 for c in cases if not c.mem),
+        "memory_small(-S 64K..250K)": sum(1 for c in cases if c.mem and c.mem[1] in ("64K", "250K")),
+        "memory_tiny(-S 600b..8K: blocks of tens of records, multi-run merges)": sum(1 for c in cases if c.mem and c.mem[1] not in ("64K", "250K")),
+        "output_files_pre_existing": sum(1 for c in cases if c.stale),
+        "degenerate_corpus_without_words": sum(1 for c in cases if c.tag == "gen:degenerate"),
+        "renumbered(--renumber/--intermediate)": sum(1 for c in cases if c.renumber or c.intermediate),
+        "renumbered_with_word_sorting_before_<s>": sum(1 for c in cases if (c.renumber or c.intermediate) and
+                                                      any(kn.murmur64a(t) < kn.murmur64a(b"<s>") for t in set(c.data.split()) if t not in kn.SPECIALS)),
+        "interpolate_unigrams_0": sum(1 for c in cases if not c.interp)}
     ctx.count("evaluations", len(cases))
     ctx.coverage["distinct_nontrivial"] = len(nontrivial)
     ctx.coverage["rule"] = ("one evaluation = one lmplz run (generated corpus, order 1-6, --prune / --limit_vocab_file / --interpolate_unigrams 0 / "
@@ -205,6 +223,11 @@ def run(ctx):
             continue
         seen.add(sig)
         ctx.report(sig, msg, {"case": c.to_json(), "lmplz_cmd": " ".join(run_.cmd), "how": "./check C06 --replay <this file>"})
+    if not spec_fail and comp_bad and not corr_fail:
+        l, a, b, why = comp_bad[0]
+        ctx.report("correspondence:adjust-counts-component", "the real AdjustCounts and the extracted `adjust` disagree (%s); the oracle on the written files finds nothing" % why,
+                   {"correspondence": "lm::builder::AdjustCounts on chains vs extracted adjust", "case": l[:20000], "impl": a, "model": b,
+                    "n_mismatches": len(comp_bad), "how": "echo '<case>' | c05_adjust_driver"}, found=False)
     if not spec_fail:
         if corr_fail:
             c, run_, (sig, msg) = corr_fail[0]
